@@ -24,6 +24,9 @@ pub struct Corpus {
     /// strings whose top 64-bit limb equals the modulus' top limb: valid encodings in that band, and
     /// aliases s + q of small valid s (non-canonical, but a limb-wise range check may let them through)
     pub band: Vec<[u8; 32]>,
+    /// canonical strings whose field element has structured Montgomery limbs (all-ones / zero limbs and
+    /// half-limbs); about half are valid encodings
+    pub mont: Vec<[u8; 32]>,
     seed: u64,
     /// built on first use (root finding costs about a second): see `table_probe`
     table_probe: std::sync::OnceLock<Vec<[u8; 32]>>,
@@ -125,11 +128,31 @@ impl Corpus {
                 }
             }
         }
+        let mut mont = Vec::new();
+        let mut mont_valid = 0;
+        let mut tries = 0;
+        while (mont.len() < 48 || mont_valid < 16) && tries < 4000 {
+            tries += 1;
+            let v = mont_value(&mut rng, f);
+            // both signs: the even one can be a valid encoding, the odd one must be refused as negative
+            let even = if v.bit(0) { f.neg(&v) } else { v.clone() };
+            let ok = rd::decode_s(&even).is_ok();
+            if ok {
+                mont_valid += 1;
+            }
+            if mont.len() < 48 || ok {
+                mont.push(arr32(&f.to_le(&even)));
+                if mont.len() % 4 == 0 {
+                    mont.push(arr32(&f.to_le(&f.neg(&even))));
+                }
+            }
+        }
         Corpus {
             valid,
             nonsquare,
             boundary_valid,
             band,
+            mont,
             seed,
             table_probe: std::sync::OnceLock::new(),
         }
@@ -168,7 +191,7 @@ pub fn near_miss(rng: &mut Rng, c: &Corpus) -> [u8; 32] {
     let base = *rng.pick(&c.valid);
     let s = Fld::int_le(&base);
     let two253: BigUint = BigUint::from(1u32) << 253;
-    let choice = rng.below(21);
+    let choice = rng.below(22);
     let cand: Option<[u8; 32]> = match choice {
         0 => le32(&(&s + q)),                           // alias s+q (fits below 2^256)
         1 => le32(&f.neg(&s)),                          // q - s
@@ -204,6 +227,7 @@ pub fn near_miss(rng: &mut Rng, c: &Corpus) -> [u8; 32] {
             let t = c.table_probe();
             if t.is_empty() { None } else { Some(t[rng.usize_below(t.len())]) }
         }
+        20 => Some(c.mont[rng.usize_below(c.mont.len())]),
         _ => Some(rng.array32()),
     };
     cand.unwrap_or_else(|| rng.array32())
@@ -514,8 +538,20 @@ pub fn field_value(rng: &mut Rng, f: &Fld) -> BigUint {
         7 => ((BigUint::from(1u32) << rng.usize_below(f.bits)) - 1u32) % p,
         8 => BigUint::from(rng.next_u64()),
         9 => decimal_structured(rng) % p,
+        10 => mont_value(rng, f),
         _ => Fld::int_le(&rng.bytes(f.nbytes + 8)) % p,
     }
+}
+
+/// Element with structured Montgomery limbs (see simcore::field::mont_structured), drawn from this run's PRNG.
+pub fn mont_value(rng: &mut Rng, f: &Fld) -> BigUint {
+    let mut words: Vec<u64> = (0..24).map(|_| rng.next_u64()).collect();
+    let mut picks: Vec<u64> = (0..24).map(|_| rng.next_u64()).collect();
+    simcore::field::mont_structured(
+        f,
+        &mut |n| picks.pop().unwrap_or(0) % n.max(1),
+        &mut || words.pop().unwrap_or(0),
+    )
 }
 
 /// Integers whose *decimal* expansion is structured: powers of ten, aligned all-zero groups of 9 / 18 / 19
